@@ -179,6 +179,7 @@ theorem gix_same (l : Nat) (D : Mode → Thread → Bool) (s s' : State) (j : Na
   · intro i hi; rw [hr]; exact h2 i (ho ▸ hi)
   · rw [hr]; exact h3
 
+set_option linter.unusedSimpArgs false in
 theorem gix_step (wv : WriteFn) (l : Nat) (D : Mode → Thread → Bool) (hd : Disc l D) (s : State) (j : Nat)
     (h : GIx l D s) : GIx l D (step wv s j) := by
   rcases step_cases wv s j with h0 | ⟨a, r, hj, hc, hs⟩ | ⟨a, r, _, _, hs⟩
